@@ -154,6 +154,11 @@ Definition may_follow_link (dir link : Z) : prog (result unit ekind) :=
     then Ret (Ok tt)
     else Ret (Err (OsError EACCES))).
 
+(* is a link with [rest] still to walk in a trailing position?  nothing left, or (T0)
+   nothing but empty components, i.e. trailing slashes *)
+Definition ps_trailing (rest : list bytes) : bool :=
+  if EMU_PS_SLASHES_TRAILING then forallb (@is_nil N) rest else is_nil rest.
+
 Definition finish (st : wst) (refs' : refs) (stack' : option sstack) (out : result lookup ekind) : wres :=
   {| r_out := out; r_refs := refs'; r_stack := stack' |}.
 
@@ -241,7 +246,7 @@ Definition walk_open (chk : Z -> Z -> list bytes -> prog (result unit ekind)) (f
               else if nosym then ret_partial st (Some next) remaining (OsError ELOOP)
               else
                 (* fs.protected_symlinks: every followed link, or (T0) only links in a trailing position *)
-                r <- (if EMU_PS_ONLY_TRAILING && negb (is_nil rest) then Ret (Ok tt)
+                r <- (if EMU_PS_ONLY_TRAILING && negb (ps_trailing rest) then Ret (Ok tt)
                       else may_follow_link (w_cur st) next) ;;
                 match r with
                 | Err e => bail st (Some next) e
